@@ -50,6 +50,7 @@ type visoCaseJ struct {
 	Reopen   int      `json:"reopen,omitempty"`   // C18: open the image this many more times and compare (masked) with the first
 	SleepMs  int      `json:"sleepMs,omitempty"`  // C18: pause before the re-opens
 	Parallel bool     `json:"parallel,omitempty"` // C18: do the re-opens concurrently
+	Burst    int      `json:"burst,omitempty"`    // C18, parallel: every re-opener first opens and closes the image this many times (all start together)
 	Between  []string `json:"between,omitempty"`  // C18: before every re-open, open, read and close an image of this other directory (and of Dir in the other mode)
 }
 
@@ -429,6 +430,7 @@ func reopenCompare(c *visoCaseJ, open func() (fileLike, error), first []byte, an
 		err      string
 	}
 	results := make([]res, c.Reopen)
+	gate := make(chan struct{})
 	one := func(i int) {
 		if len(c.Between) > 0 {
 			// somebody else's image in between (another directory; the same directory in the other mode)
@@ -442,6 +444,20 @@ func reopenCompare(c *visoCaseJ, open func() (fileLike, error), first []byte, an
 			o.Ps3 = !c.Ps3
 			if g, err := openViso(root, &o); err == nil {
 				sequentialImage(g, 1<<30)
+				g.Close()
+			}
+		}
+		if c.Parallel && c.Burst > 0 {
+			<-gate
+			for k := 0; k < c.Burst; k++ {
+				g, err := open()
+				if err != nil {
+					results[i].err = "burst open: " + err.Error()
+					return
+				}
+				if st, _ := g.Stat(); st.Size() != announced {
+					results[i].err = fmt.Sprintf("burst open: size %d, first open %d", st.Size(), announced)
+				}
 				g.Close()
 			}
 		}
@@ -495,6 +511,7 @@ func reopenCompare(c *visoCaseJ, open func() (fileLike, error), first []byte, an
 			wg.Add(1)
 			go func() { defer wg.Done(); one(i) }()
 		}
+		close(gate)
 		wg.Wait()
 	} else {
 		for i := range results {
